@@ -74,15 +74,22 @@ def run(tier, seed):
                 'initialize() throws on an invalid %s before calling _init_' % what, ok)
     # the window the engine will use (float-narrowed values stored in bb_params) is validated, not only the configured doubles
     ii = prog.fn(GEN + '::_init_')
-    FI_ = cppflow.Flow(ii)
+    try:
+        FI_ = cppflow.Flow(ii, helpers=cppflow.private_helpers(prog, ii, exclude=('_reset_', '_set_defaults_')))
+    except AnalysisBroken:
+        FI_ = cppflow.Flow(ii)
     gb = [n for n in FI_.nodes(kind='call') if n.stmt[1] == 'genbbsub']
     g2 = [(b, arm) for b, arm in FI_.throw_guards() if cppflow.mentions(b.stmt[1], 'ebb1') and cppflow.mentions(b.stmt[1], 'ebb2')]
     stores = [n for n in FI_.nodes(kind='assign') if n.stmt[1][0] == 'fld' and n.stmt[1][2] in ('ebb1', 'ebb2')]
     okw = bool(g2) and bool(gb) and all(n.id not in FI_.reach(g2[0][0].succ[g2[0][1]]) for n in gb) and \
         all(FI_.dominates(s_, g2[0][0]) or s_.id not in FI_.reach(g2[0][0].id) and g2[0][0].id in FI_.reach(s_.id) for s_ in stores)
-    rep.add('CONFIG.complete', 'window:engine-values', where(ii, g2[0][0].line if g2 else ii['l']),
-            '_init_ throws when the window actually handed to the engine (bb_params.ebb1 >= ebb2, after narrowing) is empty, before genbbsub runs',
-            okw)
+    if not gb and g2:
+        rep.cannot_decide('CONFIG.complete', where(ii, g2[0][0].line), 'window:engine-values: the call of genbbsub is not in _init_ itself '
+                          '(nor in a private helper expanded as a statement): the order of the window test and the engine call is not followed')
+    else:
+        rep.add('CONFIG.complete', 'window:engine-values', where(ii, g2[0][0].line if g2 else ii['l']),
+                '_init_ throws when the window actually handed to the engine (bb_params.ebb1 >= ebb2, after narrowing) is empty, before genbbsub runs',
+                okw)
     # reset reaches _reset_
     rs = prog.fn(GEN + '::reset')
     FR = cppflow.Flow(rs)
